@@ -714,8 +714,12 @@ struct Digit {
                         const Char_T digit = content[offset];
 
                         if ((digit >= DigitUtils::DigitChar::Zero) && (digit <= DigitUtils::DigitChar::Nine)) {
-                            exponent *= SizeT32{10};
-                            exponent += SizeT32(digit - DigitUtils::DigitChar::Zero);
+                            if (exponent < SizeT32{100000}) {
+                                // Anything beyond a few hundred is out of range; stop accumulating before it wraps.
+                                exponent *= SizeT32{10};
+                                exponent += SizeT32(digit - DigitUtils::DigitChar::Zero);
+                            }
+
                             ++offset;
                             continue;
                         }
